@@ -52,6 +52,10 @@ type TraditionalDnsConn struct {
 	closed      atomic.Bool // atomic, for fast check
 	closeErr    error       // closeErr is ready (not nil) when closeNotify is closed.
 
+	// readLoopDone is closed when readLoop returned. This happens (shortly) after
+	// the connection was closed. No reply will be delivered after that.
+	readLoopDone chan struct{}
+
 	queueMu       sync.RWMutex
 	reservedQuery int
 	nextQid       uint16
@@ -83,6 +87,8 @@ func NewDnsConn(opt TraditionalDnsConnOpts, conn NetConn) *TraditionalDnsConn {
 		isTcp:       opt.WithLengthHeader,
 		closeNotify: make(chan struct{}),
 		queue:       make(map[uint32]chan *[]byte),
+
+		readLoopDone: make(chan struct{}),
 	}
 	setDefaultGZ(&dc.idleTimeout, opt.IdleTimeout, defaultIdleTimeout)
 	setDefaultGZ(&dc.maxCq, opt.MaxConcurrentQuery, defaultTdcMaxConcurrentQuery)
@@ -170,8 +176,11 @@ wait:
 		orgId := binary.BigEndian.Uint16(q)
 		binary.BigEndian.PutUint16(*r, orgId)
 		return r, nil
-	case <-dc.closeNotify:
-		// A reply may have been delivered right before the connection was closed.
+	case <-dc.readLoopDone:
+		// Note: Don't give up as soon as the connection was closed (closeNotify).
+		// The reader may have read the reply already and be about to hand it over.
+		// Once the reader returned (it does when the connection was closed), the
+		// reply was either delivered or will never be.
 		select {
 		case r := <-respChan:
 			orgId := binary.BigEndian.Uint16(q)
@@ -210,6 +219,7 @@ func (dc *TraditionalDnsConn) readResp() (payload *[]byte, err error) {
 
 // readLoop reads DnsConn until there was a read error.
 func (dc *TraditionalDnsConn) readLoop() {
+	defer close(dc.readLoopDone)
 
 	for {
 		dc.c.SetReadDeadline(time.Now().Add(dc.idleTimeout))
